@@ -9,7 +9,9 @@ CHECK = {
             "released by one barrier) for one pair / one user several ids / several users, 1-3 limited users with caps 0..4 (also 20 and a stored -1), "
             "optionally a bypass user, credits 0/-1, expiry before/at/after now; between waves closures (incl. a user's last, sequentially), "
             "credit/expiry/cap edits, clock steps; a third of the waves with concurrent closures of other sessions. "
+            "plus 5 (75) handshake scripts: 2-3 waves of 2..16 simultaneous REAL handshakes (client.DirectTLS.Handshake against dispatchConnection over "
+            "in-memory connections) incl. an exhausted user that must be redirected: the key every client decrypts must be the joined session's key. "
             "non-trivial = a wave with at least one join, refusal or second creation; distinct by (script, wave, N, mode, outcome counts)",
     "assumptions": ["bbolt transactions are atomic", "one active record per user (C17's invariant; C15's generators never close a user's last session concurrently with an admission)",
-                    "admissions are driven through GetUser/GetSession as dispatchConnection calls them; the key passed to finishHandshake is tied by the Gen fact replyKeyIsSessionKey, not by a wire handshake"],
+                    "most admissions are driven through GetUser/GetSession as dispatchConnection calls them (the dispatcher's CloseSession-on-refusal is C17's race and is not replayed there); the handshake part goes through dispatchConnection itself"],
 }
